@@ -110,7 +110,7 @@ def solver_cmd(name, timeout):
     raise ValueError(name)
 
 
-def script_for(path, goal, with_model=False, pin=None, bare=False):
+def script_for(path, goal, with_model=False, pin=None, bare=False, light=False):
     """Compose the SMT-LIB script for one goal of one path (goal None = path feasibility).
     bare: leave out the precondition, the path condition and the lemma hypotheses (fewer assumptions:
     an `unsat` answer is still valid for the full script; used as a cheap first attempt)."""
@@ -130,7 +130,11 @@ def script_for(path, goal, with_model=False, pin=None, bare=False):
     if not bare:
         for a in path["pre"]:
             s.append("(assert %s)" % a)
-        for a in path["pi"]:
+        pi = path["pi"]
+        if light:
+            # only the syntactically small half of the path condition (fewer assumptions: `unsat` stays valid)
+            pi = sorted(pi, key=len)[: max(1, (len(pi) + 1) // 2)]
+        for a in pi:
             s.append("(assert %s)" % a)
     if pin:
         for a in pin:
@@ -455,6 +459,10 @@ def run_symx(prop, tier, seed, only=None):
             v0, _, dt0 = run_solver(solver_cmd("z3", 5), script_for(pth, g, bare=True), 5)
             if v0 == "unsat":
                 return t, {"verdict": "unsat", "solver": "z3(bare)", "time": dt0, "solvers": {"z3(bare)": "unsat"}, "sha": hashlib.sha1(sc.encode()).hexdigest()[:12], "trivial": g["smt"] in ("true",)}
+            if len(pth["pi"]) >= 4:
+                v1, _, dt1 = run_solver(solver_cmd("z3", 5), script_for(pth, g, light=True), 5)
+                if v1 == "unsat":
+                    return t, {"verdict": "unsat", "solver": "z3(light)", "time": dt0 + dt1, "solvers": {"z3(light)": "unsat"}, "sha": hashlib.sha1(sc.encode()).hexdigest()[:12], "trivial": False}
         r = decide(sc, pth["logic"], to, cross=cross and g is not None)
         r["sha"] = hashlib.sha1(sc.encode()).hexdigest()[:12]
         r["trivial"] = g is not None and g["smt"] in ("true",)
